@@ -64,6 +64,7 @@ inductive Ent where
   | listener (li n : Nat) (strong active : Bool)
   | rooted (li : Nat)                      -- a strong listener whose handle was dropped before `unlisten`:
                                            -- the context's keep-alive list holds it for good
+  | temps (l : List Nat)                   -- handles owned by closures queued for the end of the open transaction
   | other                                  -- lazies, transactions, posts: no collector object
   | dropped
   deriving Repr, DecidableEq, Inhabited
@@ -113,8 +114,22 @@ def updRef : Ent → Option (List GOp × Nat)
   | .cloop _ l h => some ([.deref h l], l)
   | _ => none
 
+/-- a `switch_s` whose inner dependency follows a selector cell: `n1` the inner node (the output stream), `chain` the owned
+    path from `n1` to the node whose closure owns the candidates, `sel` the selector cell (its number in the value
+    oracle), `cur` the candidate `n1` currently depends on -/
+structure SwRec where
+  n1 : Nat
+  chain : List Nat
+  cands : List Nat
+  sel : Nat
+  cur : Option Nat := none
+  deriving Repr, DecidableEq
+
 inductive R where
   | ops (l : List GOp) (env : Env)      -- a structural line: run these, then `ok`
+  | sw (pre atClose post : List GOp) (env : Env) (r : SwRec)
+      -- a switch: `pre`, then (when the transaction of the construction ends) the first selection, a collection and `atClose`; `post`
+  | hints (l : List (Nat × Int))        -- value oracle (driver-internal line): current values of cells
   | quiet (l : List GOp)                -- run these; the answer of the line is not compared (`-`)
   | open_ | close                       -- `begin` / `end`
   | skip                                -- the harness answers `skip`
@@ -367,6 +382,38 @@ def compileRaw (e : Env) (next : Nat) (ws : List String) : R :=
         .ops (b.emit [.dec m, .dec a]).ops (e.put x (.stream out))
       else .skip
     | _, _, _ => .skip
+  | "switchs" :: x :: sel :: rest =>
+    -- `switchs x sel c1 … cn @id`: `Cell::switch_s(sel.map(k ↦ c[k mod n]))`; `@id` names the selector in the value oracle
+    match rest.getLast?.bind (fun t => if t.startsWith "@" then (t.drop 1).toString.toNat? else none), e.find x,
+          (e.find sel).bind cellRef, (e.find sel).bind updRef, mapM' (fun c => (e.find c).bind streamRef) rest.dropLast with
+    | some id, none, some (acqh, hsel, _), some (acqu, usel), some refs =>
+      if refs.isEmpty then .skip else
+      let cands := refs.map (·.2)
+      let b : B := { next := next, ops := acqh ++ (refs.map (·.1)).flatten ++ acqu }
+      -- `sel.map(f)` with the candidates declared as dependencies of `f`
+      let (b, m4) := b.node "Stream::map" ([usel, usel] ++ cands)
+      let (b, h5) := b.node "Cell::hold" [m4, m4, m4]
+      let b := b.emit [.dec m4, .dec usel, .eot]
+      -- the public wrapper maps the cell of public streams to a cell of implementation streams
+      let b := b.emit [.deref h5 m4]
+      let (b, m6) := b.node "Stream::map" [m4, m4]
+      let (b, h7) := b.node "Cell::hold" [m6, m6, m6]
+      let b := b.emit [.dec m6, .dec m4, .eot]
+      -- `switch_s`: a placeholder stream (dropped at once), the inner node, the outer node
+      let (b, tmp) := b.node "Stream::new" []
+      let b := b.emit [.dec tmp]
+      let (b, n1) := b.node "switch_s inner node" []
+      let b := b.emit [.deref h7 m6]
+      let (b, n2) := b.node "switch_s outer node" [m6, m6, n1]
+      let b := b.emit [.edge n1 n2, .dec n2, .dec m6]
+      -- the two temporary cells are owned by closures queued for the end of the transaction
+      .sw b.ops [.dec h7, .dec h5] (cands.map GOp.dec ++ [.dec hsel]) ((e.put x (.stream n1)).put ("#switch:" ++ x) (.temps [h7, h5]))
+        { n1 := n1, chain := [n2, m6, m4], cands := cands, sel := id }
+    | _, _, _, _, _ => .skip
+  | "cellvals" :: vs =>
+    .hints (vs.filterMap fun t => match t.splitOn ":" with
+      | [a, b] => (match a.toNat?, b.toInt? with | some a, some b => some (a, b) | _, _ => none)
+      | _ => none)
   | ["sloop", x] =>
     if fresh x then
       let b : B := { next := next }
@@ -460,6 +507,7 @@ def ctorWithTxn : List String :=
   ["ssink", "never", "csink", "map", "mapto", "filter", "once", "filteropt", "merge", "orelse",
    "snapshot", "snapshot1", "snapshotn", "gate", "hold", "holdlazy", "value", "mapc", "lift2", "lift2d", "accum", "collect", "accumlazy", "collectlazy",
    "defer", "split", "sloop", "cloop", "route", "listen", "listenweak"]
+-- (`switchs` places its collections itself)
 
 def compile (e : Env) (next : Nat) (ws : List String) : R :=
   match compileRaw e next ws with
@@ -472,6 +520,9 @@ structure PSt where
   env : Env := []
   err : Bool := false
   depth : Nat := 0                      -- open `begin` brackets
+  sw : List SwRec := []                 -- the switches built so far
+  hints : List (Nat × Int) := []        -- value oracle: what the cells are worth after the current line
+  pend : List GOp := []                 -- what the closures queued for the end of the open transaction let go of
 
 /-- apply one collector operation; an inapplicable one is a bug of the recipe: flag it -/
 def applyE (x : GcScript.St × Bool) (o : Op) : GcScript.St × Bool :=
@@ -516,6 +567,53 @@ def runG (p : PSt) (l : List GOp) : PSt :=
   let kinds := l.foldl (fun k o => match o with | .new kd => k.push kd | _ => k) p.kinds
   let x := l.foldl (runOp kinds p.depth) (p.gs, p.err)
   { p with gs := x.1, err := x.2, kinds := kinds }
+
+/-- breadth-first search along owned edges for a chain from a held object to `t` -/
+def bfs (gs : GcScript.St) (t : Nat) : Nat → List (List Nat) → List Nat → Option (List Nat)
+  | 0, _, _ => none
+  | _ + 1, [], _ => none
+  | fuel + 1, p :: rest, seen =>
+    match p with
+    | [] => bfs gs t fuel rest seen
+    | a :: _ =>
+      if a == t then some p.reverse else
+      if (gs.g.node a).freed then bfs gs t fuel rest seen else
+      let nxt := ((gs.g.node a).owned.eraseDups).filter fun b => !seen.contains b
+      bfs gs t fuel (rest ++ nxt.map (· :: p)) (seen ++ nxt)
+
+/-- the library reaches a node through handles stored in the objects it holds: a chain of `deref`s from an object the
+    client has a handle on (the first element) to `t` -/
+def pathTo (gs : GcScript.St) (t : Nat) : Option (List Nat) :=
+  let roots := (List.range gs.g.nextId).filter fun a => gs.handles.get a > 0 && !(gs.g.node a).freed
+  bfs gs t (2 * gs.g.nextId + 2) (roots.map ([·])) roots
+
+/-- `deref`s along a chain; the temporary handles obtained (all elements but the first) -/
+def chainOps : List Nat → List GOp
+  | a :: b :: r => .deref a b :: chainOps (b :: r)
+  | _ => []
+
+/-- the rewiring `switch_s` does when its selector has a new value (`pre_post` of the outer node; the first time:
+    `pre_eot` of the construction): the inner node gives up the old candidate and depends on the new one.  Nothing
+    happens on a node that is dead, or that nothing the client holds leads to (the collection that follows frees it). -/
+def rewire (kinds : Array String) (hints : List (Nat × Int)) (x : GcScript.St × Bool) (r : SwRec) :
+    (GcScript.St × Bool) × SwRec :=
+  let nd := x.1.g.node r.n1
+  if nd.freed || nd.rc == 0 || r.cands.isEmpty then (x, r) else
+  match hints.lookup r.sel, pathTo x.1 r.n1 with
+  | some v, some path =>
+    let new := r.cands.getD (v.emod r.cands.length).toNat 0
+    if r.cur == some new then (x, r) else
+    let full := path ++ r.chain ++ [new]
+    let ops := chainOps full ++ (match r.cur with | some old => [GOp.cut r.n1 old] | none => []) ++
+      [.edge r.n1 new, .sadd r.n1 new] ++ (full.drop 1).reverse.map GOp.dec
+    (ops.foldl (runOp kinds 1) x, { r with cur := some new })
+  | _, _ => (x, r)
+
+def rewireAll (p : PSt) : PSt :=
+  let (x, sw) := p.sw.foldl (fun (acc : (GcScript.St × Bool) × List SwRec) r =>
+    let (x, r) := rewire p.kinds p.hints acc.1 r
+    (x, acc.2 ++ [r])) ((p.gs, p.err), [])
+  { p with gs := x.1, err := x.2, sw := sw }
 
 def dump (p : PSt) : String :=
   let g := p.gs.g
@@ -571,6 +669,7 @@ def Ent.handles : Ent → List Nat
   | .cloop sl _ h => [sl, h]
   | .listener li _ strong active => if strong && active then [li, li] else [li]   -- the script's and the context's
   | .rooted li => [li]
+  | .temps l => l
   | .other | .dropped => []
 
 /-- self-check of the recipes, evaluated after every line: the handle count of every object is exactly the number
@@ -588,11 +687,27 @@ def step (p : PSt) (line : String) : PSt × String :=
     let p := runG { p with env := env } l
     let p := if balanced p then p else { p with err := true }
     (p, if p.err then "struct-error" else "ok")
-  | .quiet l => (runG p l, "-")
+  | .sw pre atClose post env r =>
+    -- the switch samples its selector when the transaction of its construction ends
+    let p := runG { p with env := env, sw := p.sw ++ [r] } pre
+    let p := if p.depth = 0 then
+        let p := runG (rewireAll p) ([.eot] ++ atClose)
+        { p with env := p.env.filter fun kv => match kv.2 with | .temps _ => false | _ => true }
+      else { p with pend := p.pend ++ atClose }
+    let p := runG p post
+    let p := if balanced p then p else { p with err := true }
+    (p, if p.err then "struct-error" else "ok")
+  | .hints l => ({ p with hints := l }, "-")
+  | .quiet l => (runG (if p.depth = 0 then rewireAll p else p) l, "-")
   | .open_ => ({ p with depth := p.depth + 1 }, "ok")
   | .close =>
     if p.depth = 0 then (p, "bad-op") else
-    let p := runG { p with depth := p.depth - 1 } [.eot]
+    let p := { p with depth := p.depth - 1 }
+    let p := if p.depth = 0 then
+        let p := runG p p.pend
+        rewireAll { p with pend := [], env := p.env.filter fun kv => match kv.2 with | .temps _ => false | _ => true }
+      else p
+    let p := runG p [.eot]
     (p, if p.err then "struct-error" else "ok")
   | .skip => (p, "skip")
   | .na => (p, "-")
@@ -600,7 +715,7 @@ def step (p : PSt) (line : String) : PSt × String :=
   | .dump => (p, if p.err then "struct-error" else dump p)
   | .leak =>
     let (p, keep) := leakStep p
-    (p, if p.err then "struct-error" else
+    ({ p with sw := [] }, if p.err then "struct-error" else
       s!"leak={leakCount p}" ++ if keep.isEmpty then "" else s!" listeners-still-rooted={keep.length}")
 
 /-- the state after a whole script -/
